@@ -105,12 +105,35 @@ pub fn mk_table(plan: Plan, universe: u8, max_len: usize, seeds: Vec<Vec<crate::
     })
 }
 
+/// HashSet wrappers (get_or_insert_with, replace, take, entry, retain, extend ...)
+pub fn mk_set(plan: Plan, universe: u8, tier: Tier, tag: &str) -> Box<dyn Config> {
+    use crate::setsut::*;
+    let mut c = SetCfg::new(plan, universe);
+    c.max_buckets = if super::width() == 16 { 64 } else { 32 };
+    let mut cs = c.clone();
+    cs.full_alphabet = false;
+    let label = format!("{}-faults{}", c.label(), tag);
+    let quick = tier == Tier::Quick;
+    Box::new(FaultCfg::<SetHarness> {
+        label,
+        h_search: SetHarness::new(cs),
+        h_full: SetHarness::new(c),
+        seeds: vec![vec![]],
+        limits: Limits { max_wall_s: if quick { 20.0 } else { 600.0 }, ..Default::default() },
+        max_states: if quick { 8_000 } else { 200_000 },
+        wall_cap: if quick { 25.0 } else { 1500.0 },
+        need_inplace: false,
+    })
+}
+
 pub fn configs(tier: Tier) -> Vec<Box<dyn Config>> {
     let sse2 = super::width() == 16;
     let mut v: Vec<Box<dyn Config>> = Vec::new();
     let quick = tier == Tier::Quick;
     // faults in every callback of the in-place rehashes of the layout grammar (several homes and tags, displaced elements)
     v.push(Box::new(super::rehash::RehashFaults { tier }));
+    // HashSet wrappers
+    v.push(mk_set(Plan::Zero, if quick { 5 } else { 8 }, tier, ""));
     // HashTable: closed space, and scripted full / tombstone-saturated tables (in-place rehash on the next insertion)
     v.push(mk_table(Plan::Zero, if quick { 5 } else { 7 }, if quick { 6 } else { 9 }, vec![vec![]], None, tier, ""));
     {
